@@ -194,6 +194,26 @@ def pipeline(ctx, pid, extra_classes=()):
             ctx.problem("monitor", line, "observed on the real handlers, history %s (%s), after ops %s"
                         % (h["id"], h.get("shape"), [o["k"] + (":" + o["note"] if o.get("note") else "") for o in h["ops"]][-8:]),
                         concrete=True, replay=replay_obj(h, line), key=k)
+    # the real Run loop driven over its channels (select glue; scheduler decides loopback order): monitors only
+    if not ctx.replay:
+        rc, out, trace = core.harness_pkg(ctx, "processor", "^TestVerifProcRun$", timeout=3000)
+        runs = [r for r in core.read_jsonl(trace) if r.get("k") == "run"]
+        if rc != 0 or not runs:
+            ctx.problem("machinery", "go harness processor (Run loop)", out[-1200:])
+        ctx.cov["run_loop"] = {"runs": len(runs), "inputs_fed": sum(r["fed"] for r in runs), "broadcast_vaas": sum(r["broadcast_vaas"] for r in runs),
+                               "expected_publications": sum(r["expected_publications"] for r in runs)}
+        for r in runs:
+            for line in r.get("mon") or []:
+                c = mon_class(line)
+                if c is None:
+                    ctx.problem("machinery", line, "Run-loop run %s (%s)" % (r["id"], r.get("shape")))
+                elif c == pid or c in extra_classes:
+                    nmon += 1
+                    k = mon_key(pid, line)
+                    if k not in seen:
+                        seen.add(k)
+                        ctx.problem("monitor", line, "observed on the real Run loop, run %s (%s), seed %d" % (r["id"], r.get("shape"), ctx.seed),
+                                    concrete=True, replay={"why": line, "run_loop_run": r["id"], "seed": ctx.seed, "rerun": "VERIF_SEED=%d ./check %s" % (ctx.seed, pid)}, key=k)
     ctx.cov["monitor_lines_for_this_property"] = nmon
     # model vs implementation, step by step
     bad = compare_with_model(ctx, rows, "cases_" + pid)
